@@ -642,5 +642,11 @@ def abstract_ddl(ddl):
                 if r not in refs:
                     refs.append(r)
                 base.add(r)
+        # implicit references of a CREATE statement (resolved through the session like explicit ones)
+        implicit = {'type': 'std::Object', 'abstract type': 'std::Object', 'abstract link': 'std::link',
+                    'abstract property': 'std::property', 'abstract constraint': 'std::constraint'}.get(kind)
+        if implicit and implicit not in refs:
+            refs.append(implicit)
+            base.add(implicit)
         out.append((name, kind, refs))
     return out, sorted(base)
